@@ -6,6 +6,7 @@ import Proofs.LoadDecisions
 import Proofs.LoadPhrase
 import Proofs.LoadFuelBuilt
 import Proofs.LoadDangling
+import Proofs.LoadShapes
 import Gen.Sharing
 
 /-!
@@ -477,6 +478,11 @@ def fuelOrder : List (String × List Val) :=
   [ ("B", [.int 0, .int 7]), ("A", [.int 0, .int 7]), ("B", [.int 7, .int 0]), ("A", [.int 7, .int 0]) ]
 example : inDomain (fuelSchema ++ insertsOf fuelOrder) = true := by decide
 example : readBound fuelSchema = 6 ∧ (popClasses fuelSchema).length = 2 := by decide
+/-- `fuel_sufficient_built` applied: the four-step read of the audit's schema ends with the model's own fuel -/
+example : readAttr (buildCore (fuelSchema ++ insertsOf fuelOrder)) (fuelOf (buildCore (fuelSchema ++ insertsOf fuelOrder)))
+    "A" 1 "x" = some (.int 7) :=
+  fuel_sufficient_built (fuelSchema ++ insertsOf fuelOrder) (by decide)
+    (inDomain_guards _ (by decide)).2.2.1 4 "A" 1 "x" (.int 7) (by decide)
 example : readAttr (loaded fuelSchema fuelOrder) 3 "A" 1 "x" = none ∧
     readAttr (loaded fuelSchema fuelOrder) 4 "A" 1 "x" = some (.int 7) := by decide
 
@@ -599,6 +605,60 @@ theorem new_relate_generated (refs : List (String × Val)) (km : List (String ×
         Pyx.Gen.LoadDecisions.newQueryName Pyx.Gen.LoadDecisions.newValueFrom refs km okind kind i rel phrase m ∧
     Pyx.Gen.LoadDecisions.newRelateArgs = [.other, .inst, .relId, .phrase] :=
   ⟨relateLink_eq_generated refs km okind kind i rel phrase m, newRelateArgs_eq_generated⟩
+
+/-- **association_args_generated** (table check): `populate_associations` hands each field of the CREATE ROP statement to
+    the parameter of `define_association` of the same name, `source_many` / `target_many` being `'M' in` and
+    `source_conditional` / `target_conditional` being `'C' in` the statement's cardinality strings — the reading of a
+    statement that `AssocStmt` (srcMany, srcCond, tgtMany, tgtCond) and the harness's encoder fix. -/
+theorem association_args_generated :
+    Pyx.Gen.LoadDecisions.defineAssociationParams.zip Pyx.Gen.LoadDecisions.defineAssociationArgs =
+      [("rel_id", "stmt.rel_id"), ("source_kind", "stmt.source_kind"), ("source_keys", "stmt.source_keys"),
+       ("source_many", "'M' in stmt.source_cardinality"), ("source_conditional", "'C' in stmt.source_cardinality"),
+       ("source_phrase", "stmt.source_phrase"), ("target_kind", "stmt.target_kind"), ("target_keys", "stmt.target_keys"),
+       ("target_many", "'M' in stmt.target_cardinality"), ("target_conditional", "'C' in stmt.target_cardinality"),
+       ("target_phrase", "stmt.target_phrase")] := by decide
+
+/-! ### the API route against the statement-shape tables of `_find_link`, `relate`, `WhereEqual` and `MetaClass.new`
+    (Gen/RelateShape.lean, Gen/QueryShape.lean, Gen/NewShape.lean — generated by builder G's translators; importing
+    them here makes C03 regenerate and re-check them) -/
+
+/-- **find_link_generated**: the model's `_find_link` is the generic interpretation of the translated loop body
+    `findBody` over the link definitions `linkDefs` of `define_association` (which class a link starts at, which
+    phrase it carries). -/
+theorem find_link_generated (as : List AssocStmt) (k1 k2 rel phrase : String)
+    (sd td : Pyx.Gen.RelateShape.LinkDef) (hd : Pyx.Gen.RelateShape.linkDefs = [sd, td]) :
+    findLink as k1 k2 rel phrase = findLinkBy Pyx.Gen.RelateShape.findBody sd td k1 k2 rel phrase 0 as :=
+  findLinkFrom_eq_generated k1 k2 rel phrase sd td hd as 0
+
+/-- **relate_generated**: what the model does once `_find_link` has answered is the translated program of `relate`:
+    `source_link.connect(inst1, inst2)` else raise; `target_link.connect(inst2, inst1)` else
+    `source_link.disconnect(inst1, inst2)` and raise — with each link's `many` as `define_association` sets it. -/
+theorem relate_generated (a : AssocStmt) (L : Links) (t s : Nat)
+    (sd td : Pyx.Gen.RelateShape.LinkDef) (hd : Pyx.Gen.RelateShape.linkDefs = [sd, td]) :
+    relateAt a L t s = runSteps' a sd td Pyx.Gen.RelateShape.relateProg.steps L t s :=
+  relateAt_eq_generated a L t s sd td hd
+
+/-- **query_match_generated**: the test the query of `new` makes on one instance is the translated `WhereEqual`
+    loop (`break` on the first attribute that differs, the instance is yielded when the loop completes). -/
+theorem query_match_generated (m : Model) (fuel : Nat) (kind : String) (j : Nat) (kw : List (String × Val)) :
+    rowMatches m fuel kind j kw = rowMatchesBy Pyx.Gen.QueryShape.whereShape m fuel kind j kw :=
+  rowMatches_eq_generated m fuel kind j kw
+
+/-- **new_shape_generated** (table check): `define_association` adds exactly two links; `new` returns before the
+    batch relate when no referential value was given, relates `(found instance, new instance)`, stores positional
+    referential values aside instead of setting them, and a dict handed to `query` is wrapped in `WhereEqual` — as
+    `apiNew` / `relateLink` / `relateQuery` have it. -/
+theorem new_shape_generated :
+    (∃ sd td, Pyx.Gen.RelateShape.linkDefs = [sd, td]) ∧
+    Pyx.Gen.RelateShape.newPhases =
+      [.construct, .appendStorage, .defaults, .positional, .keywords, .returnIfNoReferentials, .batchRelate,
+       .warnUnassigned, .returnInst] ∧
+    Pyx.Gen.RelateShape.newRelateArgs = (.other, .newInst) ∧
+    (Pyx.Gen.NewShape.newLoops.map (fun l => (l.source, l.whenNotReferential, l.whenReferential))) =
+      [(.attributes, .setattrDefault, .nothing), (.zipAttributesArgs, .setattr, .storeReferential),
+       (.kwargs, .setattr, .storeReferential)] ∧
+    Pyx.Gen.QueryShape.opDispatch.lookup .isDict = some .wrapWhereEqual := by
+  refine ⟨⟨_, _, rfl⟩, by decide, by decide, by decide, by decide⟩
 
 /-- **phase_order** (over the generated table): `ModelLoader.populate` still runs the five phases in the order in
     which `Pyx.Load.buildCore` composes them — classes, identifiers, associations, instances, connections. -/
